@@ -5,6 +5,8 @@ sys.path.insert(0, os.path.dirname(os.path.abspath(__file__)))
 from vlib import *
 import c01
 
+PCT_TYPES = {'%s_%s' % (fam, dn): (fam, comp) for fam in ('uri', 'iri') for comp, dn in (('userinfo', 'user_info'), ('host', 'host'), ('query', 'query'), ('fragment', 'fragment'))}
+
 def main():
     R = Result('C14', 'proof')
     rnd = random.Random(R.seed ^ 0x14)
@@ -40,11 +42,18 @@ def main():
             tk = c01.tokens_of(dfas[t], b)
             if tk is not None and c01.dfa_run(dfas[t], tk):
                 lines.append('out\t%s\t%s' % (t, hexs(b))); meta.append(('out', t, b))
+                if t in PCT_TYPES:     # the owned route out XxxBuf::into_pct_string (harness op `pct`, last field)
+                    lines.append('pct\t%s\t%s\t%s' % (PCT_TYPES[t][0], PCT_TYPES[t][1], hexs(b))); meta.append(('pctout', t, b))
     impl = run_lines(harness, lines)
     nviol = 0; classes = set()
     for (d, t, b), line, io in zip(meta, lines, impl):
         pr = []
-        if d == 'in':
+        if d == 'pctout':
+            f = io.split('\t')
+            if io != 'ERR' and (len(f) < 7 or f[6] != hexs(b)):
+                pr.append('route out into_pct_string(): %s' % ('panicked' if len(f) >= 7 and f[6] == 'PANIC' else 'text not preserved: ' + io[:120]))
+            classes.add((d, t, b'%' in b, any(c > 127 for c in b)))
+        elif d == 'in':
             tk = c01.tokens_of(dfas[t], b)
             want = 'A' if (tk is not None and c01.dfa_run(dfas[t], tk)) else 'R'
             if io == 'PANIC' or not all(ch == want or ch == '-' for ch in io):
@@ -63,7 +72,7 @@ def main():
     R.cov['distinct_nontrivial'] = len(classes)
     R.cov['rule'] = ('for each of the 20 types: strings from random walks through the translated validator, boundary edits and ill-formed UTF-8; every route in (13 per input) must accept '
                      'exactly when the validator does and keep text / payload; every route out of an accepted value (Display, Debug, as_str, as_bytes, to_owned, Clone, into_string, '
-                     'into_bytes, AsRef, serde) must give the text; == with str/String/[u8] must be plain text comparison (incl. a different percent-spelling being unequal)')
+                     'into_bytes, AsRef, serde, into_pct_string for the four percent-encoded component types) must give the text; == with str/String/[u8] must be plain text comparison (incl. a different percent-spelling being unequal)')
     R.cov['samples'] = [{'type': m[1], 'hex': m[2].hex()[:60], 'result': io} for m, io in list(zip(meta, impl))[::max(1, len(meta) // 8)]][:8]
     R.cov['trusted_base'] = R.assumptions
     R.extra.update({'tree': os.path.basename(cdir)})
